@@ -65,10 +65,6 @@ type RoundTripper struct {
 	*transport.Options
 	mutex sync.Mutex
 
-	// TLSClientConfig specifies the TLS configuration to use with
-	// tls.Client. If nil, the default configuration is used.
-	TLSClientConfig *tls.Config
-
 	// QUICConfig is the quic.Config used for dialing new connections.
 	// If nil, reasonable default values will be used.
 	QUICConfig *quic.Config
